@@ -835,3 +835,25 @@ pub fn wait_until(log: &Log, deadline: Duration, mut pred: impl FnMut(&[Obs]) ->
         std::thread::sleep(Duration::from_millis(3));
     }
 }
+
+/// Control experiment for "the node stopped serving" verdicts: two fresh plain nodes connect and complete one request
+/// within the same deadlines. When even that fails the machine is too busy to judge and the case is inconclusive.
+pub fn control_pair_works(case_id: u64, seed: u64) -> bool {
+    let log: Log = Arc::new(Mutex::new(Vec::new()));
+    let setup = |s: u64| NodeSetup {
+        seed: s,
+        keep_alive: Some(Duration::from_secs(20)),
+        rr: Some(RrSetup { timeout: Duration::from_millis(800), max_size: 1024, max_concurrent_inbound: None }),
+        case_id,
+        ..Default::default()
+    };
+    let (Ok(a), Ok(b)) = (Node::spawn(8, setup(seed % 300 + 98_000), log.clone()), Node::spawn(9, setup(seed % 300 + 99_000), log.clone())) else { return false };
+    a.send(Cmd::DialAddress(full_address(&b)));
+    let (pa, pb) = (a.peer, b.peer);
+    let connected = |l: &[Obs], node: usize, peer: &PeerId| l.iter().any(|o| o.node == node && matches!(&o.kind, ObsKind::ConnEstablished { peer: p, .. } if p == peer));
+    if !wait_until(&log, Duration::from_millis(4000), |l| connected(l, 8, &pb) && connected(l, 9, &pa)) {
+        return false;
+    }
+    a.send(Cmd::RrSend { peer: pb, payload: rr_request(1, 0, 0, 8, 20), dial: false });
+    wait_until(&log, Duration::from_millis(4000), |l| l.iter().any(|o| o.node == 8 && matches!(&o.kind, ObsKind::RrResponse { .. })))
+}
